@@ -10,7 +10,15 @@ ENTRY = dict(
          "capacity) and the F-07a corpus, every 4th also through ImportTLSClientHelloFromJSON; json: n documents in the fixture format "
          "(30 extension shapes, names from the live dicttls tables; every 4th valid, the others with a member missing, null, ill-typed, "
          "repeated, case-folded, an odd list element, or an ill-typed extension) and the F-07b corpus (null, {}, each member missing, "
-         "non-objects), malformed text under the Go oracle; write: ExtensionFromID(id).Write on 4+n/8 random/shaped bodies for 32 ids. "
+         "non-objects), malformed text under the Go oracle; write: ExtensionFromID(id).Write on 4+n/8 random/shaped bodies, every length 0..5 and "
+         "every proper prefix of valid bodies for 32 ids. ident-sweep: valid bodies of EVERY built-in extension type (2 per type, from its own "
+         "Read) with each 16-bit and each 8-bit position (first 40 bytes) set in turn to 0,1,2,3,4,0x1d,0x0a0a,0x0100,0x7fff,0xfffe,0xffff resp. "
+         "0,1,2,3,64,254,255 -> Write directly and FingerprintClientHello inside a well-framed hello (Go oracle; ~10^4 inputs), plus the "
+         "`ident-sweep`, `shrink-ext-body` and `reorder-or-repeat` hello mutations as Coq cases. flag matrix: a valid TLS 1.3 hello with/without "
+         "padding x with/without a non-empty pre_shared_key under all 8 Fingerprinter flag sets (32 Coq cases + usability oracle), and every PSK "
+         "parrot as a resuming hello (filled FakePreSharedKeyExtension), with and without its padding extension, under all 8 flag sets (Go "
+         "oracle). The usability oracle (ApplyPreset + BuildHandshakeState under recover) applies to every accepted input without a repeated "
+         "extension type and with pre_shared_key last. "
          "Distinct by (generator index, mutation index, flags); non-trivial: accepted with at least one extension, or refused after the "
          "fixed header, or any panic.",
     trusted_base=["harness/extcoq (reflection-based renderer of Go extension values as Coq terms)",
